@@ -274,7 +274,7 @@ func verifC16norm(s string) string {
 // s, or the content of s when s itself is a valid double-quoted string.
 func verifC16idRoundTrip(s string, skipBadHTML bool) {
 	if skipBadHTML && verifC16badHTML(s) {
-		verifReach("skipped: <...> that is not a DOT HTML string")
+		verifReach("skipped: ID that quoteID passes but the DOT lexer rejects (V5)")
 		return
 	}
 	g := simple.NewUndirectedGraph()
@@ -302,11 +302,26 @@ func verifC16idRoundTrip(s string, skipBadHTML bool) {
 	verifAssert(cnt == 1, "the decoded node has the DOT ID (unquoted if it was a quoted string)")
 }
 
-// verifC16badHTML: s looks like <...> but is not an HTML string of the DOT
-// grammar of graph/formats/dot (internal/dot.bnf: '<' { chars | '<' chars '>' } '>',
-// chars without NUL, '<', '>').
+// verifC16badHTML: s is taken for an ID by quoteID (written as it is) although
+// the lexer of graph/formats/dot does not accept it (open violation V5):
+//   - s looks like <...> but is not an HTML string as the lexer implements it:
+//     '<' { chars | '<' chars '>' } '>' with chars free of NUL, '<', '>', one
+//     nesting level, and (observed, stricter than internal/dot.bnf) no empty
+//     tag "<>" inside;
+//   - s is a double-quoted string containing a NUL byte.
 func verifC16badHTML(s string) bool {
-	if len(s) < 2 || s[0] != '<' || s[len(s)-1] != '>' {
+	if len(s) < 2 {
+		return false
+	}
+	if s[0] == '"' && s[len(s)-1] == '"' {
+		for i := 1; i < len(s)-1; i++ {
+			if s[i] == 0 {
+				return true
+			}
+		}
+		return false
+	}
+	if s[0] != '<' || s[len(s)-1] != '>' {
 		return false
 	}
 	depth := 0
@@ -323,6 +338,9 @@ func verifC16badHTML(s string) bool {
 			depth--
 			if depth < 0 {
 				return true
+			}
+			if s[i-1] == '<' {
+				return true // empty tag
 			}
 		}
 	}
@@ -369,7 +387,8 @@ func VerifC16_DotIDRoundTrip() {
 
 // VerifC16_DotIDRoundTripHTML: the same without the exclusion. OPEN VIOLATION
 // (notes/C16_text.md V5): quoteID takes every <...> for an HTML ID, so "<<>",
-// "<>>", "<a>b>" are written unquoted and the output is rejected by Unmarshal.
+// "<>>", "<a>b>", "<<>>" are written unquoted and the output is rejected by
+// Unmarshal (dotid=4 for "<<>>"; dotid=3,dotidalpha=20 for the quoted NUL).
 // Not part of the check spec.
 func VerifC16_DotIDRoundTripHTML() {
 	verifC16stubs()
@@ -474,7 +493,7 @@ func VerifC16_DotAttrPortRoundTrip() {
 		comp = comps[verifChoose("comp", 0, len(comps)-1)]
 	}
 	if verifC16badHTML(key) || verifC16badHTML(val) || verifC16badHTML(port) {
-		verifReach("skipped: <...> that is not a DOT HTML string")
+		verifReach("skipped: ID that quoteID passes but the DOT lexer rejects (V5)")
 		return
 	}
 	a := verifC16attrNode{verifC16named: verifC16named{id: 1, dotID: "a"}}
